@@ -327,6 +327,7 @@ type walkObs struct {
 	// ended early (abort or unwinding); SequelRan says whether it was run
 	SequelHist []walkEvent
 	SequelRan  bool
+	Warmed     bool // the options value had served a complete walk before
 }
 
 // realWalk drives commonmark.Walk with the same tape.
@@ -363,6 +364,7 @@ func realWalk(v *walkView, ws *WalkScn, blocks []*commonmark.RootBlock, histCap 
 	var sameOpts *commonmark.WalkOptions
 	depth, nestedCnt := 0, 0
 	sequel := false
+	warming := false
 	nested := func(c *commonmark.Cursor, before walkEvent) {
 		if !ws.Reentrant || len(blocks) == 0 || obs.NestedWalks >= 150 {
 			return // at most 150 nested walks per walk: enough to overlap every kind of frame
@@ -395,6 +397,9 @@ func realWalk(v *walkView, ws *WalkScn, blocks []*commonmark.RootBlock, histCap 
 	opts := &commonmark.WalkOptions{ChildCount: v.childCount, Child: v.child}
 	if !ws.PreNil {
 		opts.Pre = func(c *commonmark.Cursor) bool {
+			if warming {
+				return true
+			}
 			if depth > 0 {
 				nestedCnt++
 				return nestedCnt < 64
@@ -422,6 +427,9 @@ func realWalk(v *walkView, ws *WalkScn, blocks []*commonmark.RootBlock, histCap 
 	}
 	if !ws.PostNil {
 		opts.Post = func(c *commonmark.Cursor) bool {
+			if warming {
+				return true
+			}
 			if depth > 0 {
 				nestedCnt++
 				return nestedCnt < 48
@@ -448,6 +456,12 @@ func realWalk(v *walkView, ws *WalkScn, blocks []*commonmark.RootBlock, histCap 
 		}
 	}
 	sameOpts = opts
+	if ws.Warm {
+		warming = true
+		commonmark.Walk(v.root, opts)
+		warming = false
+		obs.Warmed = true
+	}
 	func() {
 		defer func() {
 			if r := recover(); r != nil {
